@@ -277,6 +277,23 @@ add('HILB',
     Rule('X-HILB', 'self.history[..self.ntaps].clone_from_slice(&iv[$a:e..$b:e]);', 'history_from(&mut self.history, self.ntaps, &iv, $a, $b);', stmt_start=True),
     Rule('X-HILB', '$ts:i.retain(|t| t.pos() < $n:e);', 'retain_tags_before(&mut $ts, $n);', stmt_start=True))
 
+# X-ZC (unit zc): float expressions of zero_crossing.rs become calls of uninterpreted functions; the optional clock stream
+add('ZC',
+    Rule('X-ZC', '($a:e + ($b:e / 2.0)) as u64', 'f2u(fadd($a, fhalf($b)))'),
+    Rule('X-ZC', '$w:i.slice()[$i:e] = $v:e;', '$w.set($i, $v);', stmt_start=True),
+    Rule('X-ZC', 'self.last_cross += self.clock;', 'self.last_cross = fadd(self.last_cross, self.clock);', stmt_start=True),
+    Rule('X-ZC', '*$s:i > 0.0', 'fpos(*$s)'),
+    Rule('X-ZC', 'self.counter as f32', 'u2f(self.counter)'),
+    Rule('X-ZC', 'self.$f:i *= 1.0;', 'self.$f = fone(self.$f);', stmt_start=True),
+    Rule('X-ZC', '(10.0 * self.clock) as u64', 'f2u(fmul10(self.clock))'),
+    Rule('X-ZC', 'self.last_cross as u64', 'f2u(self.last_cross)'),
+    Rule('X-ZC', 'self.last_cross -= $s:i as f32;', 'self.last_cross = fsub(self.last_cross, u2f($s));', stmt_start=True),
+    Rule('X-ZC', 'self.counter += 1;', 'self.counter = inc_u64(self.counter);', stmt_start=True),
+    # the stream contract models the environment through `&mut`; a shared borrow of the Option becomes a mutable one
+    Rule('X-ZC', 'self.out_clock.as_ref()', 'self.out_clock.as_mut()'),
+    Rule('X-ZC', 'BlockRet::WaitForStream($s:i, $n:e)', 'BlockRet::WaitForStream($s.wait_id(), $n)'),
+    Rule('X-ZC', 'if let Some($s:i) = out_clock { $s2:i.produce($n:e, &[]); }', 'if let Some($s) = out_clock { opt_produce(&mut self.out_clock, $s, $n); }'))
+
 # X-FFTS (unit fftstream)
 add('FFTS',
     Rule('X-FFTS', 'std::sync::Arc<dyn rustfft::Fft<Float>>', 'FftPlan'),
